@@ -57,6 +57,8 @@ class HistContainer(IndexedContainer):
         if len(bin_range) != 2:
             raise ValueError(f"bin_range must be iterable of 2 floats but received {bin_range}")
         low, high = tuple(bin_range)
+        if low > high:
+            raise ValueError(f"bin_range must be given in ascending order but received {bin_range}")
 
         super(HistContainer, self).__init__(data=np.zeros(n_bins + 2), dtype=dtype)  # underflow and overflow bins
         self._manual_heights = False
